@@ -40,10 +40,24 @@ Combine(a, b) == [f \in Fields |-> IF b[f] # 0 THEN b[f] ELSE a[f]]      \* righ
 
 \* fixed tag vocabulary of generated documents (id -> canonical name, style)
 \*   1 [red] 2 [blue] 3 [bold] 4 [b] 5 [on white] 6 [bold red] 7 [link=U] 8 [link=V] 9 [not bold] 10 [zz] (no such style)
-TagIds == 1..10
-TagKey(id) == <<"red", "blue", "bold", "bold", "on white", "bold red", "link", "link", "not bold", "zz">>[id]
+\*   spellings whose canonical name differs from the spelling / other ways of writing a style (field digits > 2):
+\*   11 [bOLD] 12 [b ] 13 [bold  red] 14 [#ff0000] 15 [rgb(1,2,3)] 16 [color(5)] 17 [on red] 18 [i] 19 [italic]
+\*   20 [link=x:a:y] (a target that contains an emoji code) 21 [lINK=U] 22 [click=f] (no such style, with a parameter)
+\*   23 [red on white] 24 [zZ ] (no such style; same name as 10)
+TagIds == 1..24
+TagKey(id) == <<"red", "blue", "bold", "bold", "on white", "bold red", "link", "link", "not bold", "zz",
+                "bold", "bold", "bold red", "#ff0000", "rgb(1,2,3)", "color(5)", "on red", "italic", "italic",
+                "link", "link", "click", "red on white", "zz">>[id]
 TagSty(id) == << <<1,0,0,0,0>>, <<2,0,0,0,0>>, <<0,0,1,0,0>>, <<0,0,1,0,0>>, <<0,1,0,0,0>>,
-                 <<1,0,1,0,0>>, <<0,0,0,1,0>>, <<0,0,0,2,0>>, <<0,0,2,0,0>>, NullSty >>[id]
+                 <<1,0,1,0,0>>, <<0,0,0,1,0>>, <<0,0,0,2,0>>, <<0,0,2,0,0>>, NullSty,
+                 <<0,0,1,0,0>>, <<0,0,1,0,0>>, <<1,0,1,0,0>>, <<3,0,0,0,0>>, <<5,0,0,0,0>>, <<4,0,0,0,0>>,
+                 <<0,2,0,0,0>>, <<0,0,0,0,1>>, <<0,0,0,0,1>>, <<0,0,0,3,0>>, <<0,0,0,1,0>>, NullSty,
+                 <<1,1,0,0,0>>, NullSty >>[id]
+\* base style handed to the entry point (style=...): 0 = none.  It acts like a tag opened before
+\* everything else that is never closed: every tag wins over it, it shows where no tag speaks.
+\*   1 "blue"  2 "bold"  3 "not bold on white"  4 "bold red link U"  5 Style(color=blue, italic)
+BaseIds == 0..5
+BaseSty(id) == << NullSty, <<2,0,0,0,0>>, <<0,0,1,0,0>>, <<0,1,2,0,0>>, <<1,0,1,1,0>>, <<2,0,0,0,1>> >>[id + 1]
 Keys == {TagKey(i) : i \in TagIds}
 
 \* ---------------------------------------------------------------------------------------------
@@ -171,11 +185,12 @@ EscFrom(s, i) ==
          IN SubSeq(s, i, j - 1) \o Rep(BS, b) \o <<BS>> \o SubSeq(s, j, m) \o EscFrom(s, m + 1)
 Escape(s) == EscFrom(s, 1)
 
-\* acceptance relation on an observed rendering r = [err, plain, sty] of escape(s); sty = style codes
-EscapeOK(s, r) == /\ r.err = "none"
-                  /\ r.plain = s
-                  /\ Len(r.sty) = Len(s)
-                  /\ \A p \in 1..Len(r.sty) : r.sty[p] = Code(NullSty)
+\* acceptance relation on an observed rendering r = [err, plain, sty] of escape(s); sty = style codes;
+\* base = the base style handed to the entry point (NullSty when none): "no styling" = nothing but the base
+EscapeOK(s, r, base) == /\ r.err = "none"
+                        /\ r.plain = s
+                        /\ Len(r.sty) = Len(s)
+                        /\ \A p \in 1..Len(r.sty) : r.sty[p] = Code(base) \/ r.sty[p] = 0 - 1    \* -1: unobservable
 
 \* side conditions of the embedded form
 SideOK(s) == /\ (s = <<>> \/ s[Len(s)] # BS)
@@ -184,4 +199,22 @@ SideOK(s) == /\ (s = <<>> \/ s[Len(s)] # BS)
 \* the design satisfies both forms at the lexical level (checked exhaustively by MC_Markup)
 EscStandaloneLex(s) == Lex(Escape(s)) = Chars(s)
 EscEmbeddedLex(P, s, Q) == SideOK(s) => Lex(P \o Escape(s) \o Q) = Lex(P) \o Chars(s) \o Lex(Q)
+
+\* ---------------------------------------------------------------------------------------------
+\* (d) emoji codes.  Entry points called with emoji=True replace ":name:" by a glyph when name is
+\* an emoji name - a separate feature about which the statement says nothing.  The verbatim clauses
+\* are demanded of an emoji=True call exactly when the text (tags removed) contains no ":name:"
+\* (no white space inside) whose lower-cased name is an emoji name under ANY pairing of its colons;
+\* emo = the emoji names (taken as given from the tree under test) over the characters of the input.
+COLON == 58
+WS == {9, 10, 11, 12, 13, 28, 29, 30, 31, 32, 133, 160, 5760, 8232, 8233, 8239, 8287, 12288} \cup (8192..8202)
+LowerCp(c) == IF c \in 65..90 THEN c + 32 ELSE c
+LowerSeq(s) == [x \in 1..Len(s) |-> LowerCp(s[x])]
+HasEmoji(plain, emo) ==
+    LET C == {i \in 1..Len(plain) : plain[i] = COLON}
+        E == {emo[x] : x \in 1..Len(emo)}
+    IN E # {} /\ \E i \in C : \E j \in C :
+          /\ i < j
+          /\ \A x \in (i + 1)..(j - 1) : plain[x] \notin WS
+          /\ LowerSeq(SubSeq(plain, i + 1, j - 1)) \in E
 =============================================================================
